@@ -12,6 +12,7 @@ import (
 	"os"
 	"path/filepath"
 	"strconv"
+	"sync"
 	"strings"
 	"testing"
 	"time"
@@ -259,6 +260,61 @@ func (in *c04Interp) exec(line string) string {
 			}
 		}
 		return r
+	case "cseal":
+		// `cseal N SEED`: N builders over the same inserts (each in its own order) sealed concurrently
+		if in.file == nil {
+			return "nofile"
+		}
+		n, _ := strconv.Atoi(w[1])
+		seed, _ := strconv.ParseUint(w[2], 10, 64)
+		rng := zz.NewRNG(seed)
+		orders := make([][][2][]byte, n)
+		for gi := range orders {
+			perm := rng.Perm(len(in.order))
+			sh := make([][2][]byte, len(in.order))
+			for i, j := range perm {
+				sh[i] = in.order[j]
+			}
+			orders[gi] = sh
+		}
+		datas := make([][]byte, n)
+		rs := make([]string, n)
+		var wg sync.WaitGroup
+		for gi := 0; gi < n; gi++ {
+			wg.Add(1)
+			go func(gi int) {
+				defer wg.Done()
+				rs[gi] = zz.Guard(func() string {
+					d, r := in.seal(orders[gi])
+					datas[gi] = d
+					return r
+				})
+			}(gi)
+		}
+		wg.Wait()
+		for gi := 0; gi < n; gi++ {
+			if rs[gi] != "ok" {
+				in.s.Violation(fmt.Sprintf("sealing the same inserts in %d builders at the same time: builder %d failed: %s", n, gi, rs[gi]), "C04:concurrent-seal-fail", in.replayOf(line))
+				return "diff"
+			}
+			if !bytes.Equal(datas[gi], in.file) {
+				// which inserted key does the concurrently sealed file answer wrongly, if any?
+				what := "a different file"
+				if db, err := Open(bytes.NewReader(datas[gi])); err == nil {
+					for k, v := range in.inserted {
+						got, err := db.Lookup([]byte(k))
+						if err != nil || !bytes.Equal(got, v) {
+							what = fmt.Sprintf("a file in which Lookup(%x) = %x, %v (inserted value %x)", k, got, err, v)
+							break
+						}
+					}
+				}
+				in.s.Violation(fmt.Sprintf("sealing the same inserts in %d builders at the same time gives %s (builder %d)", n, what, gi), "C04:concurrent-seal-differs", in.replayOf(line))
+				return "diff"
+			}
+		}
+		in.s.Count("concurrent-seal-identical")
+		return "same"
 	case "reseal":
 		// seal the same inserts again in another order: byte-identical file expected
 		if in.file == nil {
@@ -484,6 +540,14 @@ func (g *c04Gen) generate(thorough bool) {
 	// several buckets through the declared count, real count much smaller / larger
 	g.buildCase("declared-10x", 9, 30000, g.keyset(3000, 36, 11), 3, 20, true)
 	g.buildCase("declared-1", 9, 1, g.keyset(2500, 36, 12), 3, 20, false)
+	// many buckets (13) with few entries each, sealed again three times: the file is a function of the inserts
+	g.buildCase("many-buckets", 9, 120000, g.keyset(3000, 36, 13), 1, 10, true)
+	g.emit("reseal %d", g.rng.U64()%1000000)
+	g.emit("reseal %d", g.rng.U64()%1000000)
+	// one full-size bucket (10 000 entries: several nonces are mined before the 24-bit hashes are collision-free), then
+	// four builders sealing the same inserts AT THE SAME TIME in one process (as `index all` seals its three indexes)
+	g.buildCase("full-bucket-concurrent-seal", 9, 10000, g.keyset(10000, 36, 14), 1, 10, false)
+	g.emit("cseal 4 %d", g.rng.U64()%1000000)
 	g.buildCase("adversarial-one-bucket", 8, 40000, keysInBucket(g.rng, 1500, 12, 4, 2), 1, 10, true)
 	// random part
 	nrand := 6
